@@ -67,7 +67,7 @@ func genPoints3(t *rapid.T, s gen.Shape3, n int) []kit.V3 {
 }
 
 func genPrim3(t *rapid.T) prim3Case {
-	s := gen.Shape3Gen(t, gen.AllKinds3, gen.LogF(t, 0.05, 20, "size"), 1000, "shape")
+	s := gen.Shape3Gen(t, gen.AllKinds3, gen.LogF(t, 0.05, 20, "size"), 1000, "shape").Scaled(gen.UnitGen(t, "unit"))
 	return prim3Case{Shape: s, Pts: genPoints3(t, s, 12)}
 }
 
@@ -176,7 +176,7 @@ type prim2Case struct {
 }
 
 func genPrim2(t *rapid.T) prim2Case {
-	s := gen.Shape2Gen(t, gen.AllKinds2, gen.LogF(t, 0.05, 20, "size"), 1000, "shape")
+	s := gen.Shape2Gen(t, gen.AllKinds2, gen.LogF(t, 0.05, 20, "size"), 1000, "shape").Scaled(gen.UnitGen(t, "unit"))
 	size, ctr := s.Size(), s.Centre()
 	c := prim2Case{Shape: s}
 	for i := 0; i < 12; i++ {
